@@ -86,6 +86,33 @@ def run(ctx):
                                            "correspondence": "PV.B64filter.run vs bin/b64filter"}, no_input=True,
                                            summary=f"b64filter model/impl differ for child {name} on {docs[:3]!r}")
                     return
+    # one document larger than everything that can be in flight (both pipes plus the child's buffer), first / middle / last
+    for label, docs_ in (("a 4 MB document in the middle", [b"a\n", b"", b"x" * 19] + [bytes(97 + (i * 7) % 26 if i % 61 else 10 for i in range(4 << 20))] + [b"b\n", b""]),
+                         ("a 2 MB document first", [bytes(97 + (i * 5) % 26 if i % 73 else 10 for i in range(2 << 20))] + [b"tail\n"]),
+                         ("a 2 MB document last", [b"head\n", b""] + [bytes(97 + (i * 3) % 26 if i % 79 else 10 for i in range(2 << 20))])):
+        import wrappers
+        data = b"".join(base64.b64encode(d) + b"\n" for d in docs_)
+        st, out, err, trace = wrappers.run_traced(ctx, ["b64filter"], data, ["eager"], timeout=90)
+        ctx.count("b64filter.large", 1, [label])
+        if st != 0 or out != data:
+            pvlib.report_violation(ctx, "b64filter-large:" + label, {"argv": ["b64filter", "python3", "harness/children/child.py", "eager"], "generator": label,
+                                   "document_sizes": [len(d) for d in docs_], "status": st, "lines_out": out.count(b"\n"), "stderr": err.decode(errors="replace")[-300:]},
+                                   summary=f"b64filter with an identity child on {label}: " + ("did not finish within 90 s" if st == "HANG" else f"status {st}") +
+                                           f", {out.count(10)} of {len(docs_)} lines out")
+            break
+    # documents are arbitrary bytes: the FIRST document may itself be a compressed file (its bytes, and so the child's output,
+    # begin with a gzip / bzip2 / xz magic number)
+    import gzip as _gz, bz2 as _bz2, lzma as _lz
+    for label, first in (("gzip", _gz.compress(b"payload\n")), ("bzip2", _bz2.compress(b"payload\n")), ("xz", _lz.compress(b"payload\n"))):
+        docs_ = [first, b"second\n"]
+        data = b"".join(base64.b64encode(d) + b"\n" for d in docs_)
+        st, out, err = pvlib.run_tool([ctx.bin("b64filter"), "cat"], data, env=pvlib.san_env(), timeout=30)
+        ctx.count("b64filter.magic-first", 1, [label])
+        if st != 0 or out != data:
+            pvlib.report_violation(ctx, "b64filter-first-document-is-" + label, {"argv": ["b64filter", "cat"], "stdin_hex": hx(data), "status": st,
+                                   "stderr": err.decode(errors="replace")[-300:]},
+                                   summary=f"b64filter cat when the first document is a {label} file: status {st}, output {'differs' if out != data else 'equal'} "
+                                           f"(the reader of the child's output sniffs compression magic numbers)")
     # thousands of tiny documents (far more descriptors in flight than bytes), with an eager and with a read-everything child
     for label, docs_, pol in (("3000 one-word documents", [b"w%d" % i for i in range(3000)], ["eager"]),
                               ("3000 empty documents", [b""] * 3000, ["eager"]),
